@@ -44,9 +44,11 @@ def rationalize(x, single: bool = False) -> Fraction:
         if len(digits) <= 12:
             return Fraction(r)  # the decimal literal the float was written as
     tol = 2e-7 if single else 1e-13
+    # absolute tolerance below 1: a float produced by a float computation on O(1) numbers carries an absolute error of
+    # that size (cancellation makes the relative error of small results arbitrarily large), see DESIGN.md assumptions
     for lim in (64, 1000, 10 ** 6):
         g = f.limit_denominator(lim)
-        if abs(g - f) <= tol * abs(f):  # relative: an absolute tolerance would read small magnitudes (1e-8) as 0
+        if abs(g - f) <= tol * max(1, abs(f)):
             return g
     return f
 
